@@ -116,7 +116,7 @@ theorem typedOf_speLocal (r : Request) (m : Meth) (wf : WellFormed r m) :
     hand-written specification `SpecHolds`. -/
 theorem validate_matches_spec (r : Request) (m : Meth) (wf : WellFormed r m) :
     (frontEnd r).outcome = .threw (errT .wrong_parameter_error) ↔
-      ¬ SpecHolds m r.n (numOf (merged r)) (speLocal (merged r)) := by
+      ¬ SpecHolds m r.n (if r.hasF then r.dim else 0) (numOf (merged r)) (speLocal (merged r)) := by
   have htyped := merged_typed r (wellTyped_defaults r wf.typed) ⟨m, lookup_method r wf.nodup m wf.method⟩
   have hget := typedOf_get (merged r) htyped
   have hv := verdict m r (typedOf (merged r).pmap) (merged r) hget (typedOf_meth r m wf)
@@ -138,12 +138,12 @@ theorem validate_matches_spec (r : Request) (m : Meth) (wf : WellFormed r m) :
 
 /-- … in particular, with every applicable range respected the request is *not* answered by `wrong_parameter_error` -/
 theorem valid_side_accepted (r : Request) (m : Meth) (wf : WellFormed r m)
-    (h : SpecHolds m r.n (numOf (merged r)) (speLocal (merged r))) :
+    (h : SpecHolds m r.n (if r.hasF then r.dim else 0) (numOf (merged r)) (speLocal (merged r))) :
     (frontEnd r).outcome ≠ .threw (errT .wrong_parameter_error) :=
   fun hc => ((validate_matches_spec r m wf).mp hc) h
 
 /-- non-vacuity: a concrete well-formed Isomap request (N = 10, k = 3) meets `WellFormed` and the specification -/
-example : WellFormed ⟨10, [⟨.method, .method .Isomap⟩, ⟨.num_neighbors, .int 3⟩], false, true, false, false⟩ .Isomap :=
+example : WellFormed ⟨10, [⟨.method, .method .Isomap⟩, ⟨.num_neighbors, .int 3⟩], false, true, false, false, 10⟩ .Isomap :=
   ⟨by decide, by decide, by intro p hp; simp at hp; rcases hp with rfl | rfl <;> rfl, by decide,
    by intro p hp; simp at hp; rcases hp with rfl | rfl <;> simp, by simp [DeclaredSupplied, Meth.traits]⟩
 
@@ -191,9 +191,9 @@ theorem no_callback_before_error (r : Request) (e : Err) (h : (frontEnd r).outco
     simp [Counts.zero]
 
 /-- non-vacuity: requests that end in an error -/
-example : (frontEnd ⟨5, [⟨.method, .method .Isomap⟩, ⟨.num_neighbors, .int 7⟩], false, true, false, false⟩).outcome =
+example : (frontEnd ⟨5, [⟨.method, .method .Isomap⟩, ⟨.num_neighbors, .int 7⟩], false, true, false, false, 10⟩).outcome =
       .threw (errT .wrong_parameter_error) := by decide +kernel
-example : frontEnd ⟨10, [⟨.method, .method .Isomap⟩, ⟨.eigen_method, .int 3⟩], false, true, false, false⟩ =
+example : frontEnd ⟨10, [⟨.method, .method .Isomap⟩, ⟨.eigen_method, .int 3⟩], false, true, false, false, 10⟩ =
       ⟨.threw (errT .wrong_parameter_type_error), Counts.zero⟩ := by decide +kernel
 
 /-- **A value of the wrong type is always reported**, before anything is computed: any keyword that has a default
